@@ -1035,7 +1035,13 @@ fn gen_len(rng: &mut Rng) -> usize {
         2..=3 => 1,
         4..=7 => rng.range(2, 6) as usize,
         8 => rng.range(7, 40) as usize,
-        _ => rng.range(200, 600) as usize,
+        // long sequences, around and beyond the powers of two a reader might clamp or chunk at
+        _ => match rng.below(6) {
+            0 => rng.range(1020, 1030) as usize,
+            1 => rng.range(4090, 4100) as usize,
+            2 => rng.range(1500, 9000) as usize,
+            _ => rng.range(200, 600) as usize,
+        },
     }
 }
 
